@@ -60,6 +60,18 @@ theorem nnf_of_cnf_result (e : Expr α) (h : constFree e = true) : toNnf (toCnf 
 theorem nnf_of_dnf_result (e : Expr α) (h : constFree e = true) : toNnf (toDnf e) = toDnf e :=
   toNnf_of_isNnf _ (dnf_result_is_nnf e h)
 
+/-- there is no CNF analogue of `nnf_fixed_point`: `to_cnf` rebuilds a disjunction pairwise, so the
+    tree of an accepted CNF changes (same function, still CNF) -/
+theorem cnf_not_fixed_point_unary :
+    isCnf (Expr.or [.lit "a"]) = true ∧ toCnf (Expr.or [.lit "a"]) ≠ Expr.or [.lit "a"] := by
+  refine ⟨by decide, ?_⟩
+  simp [toCnf, toNnf, toNnfL, cnfN, cnfNL]
+theorem cnf_not_fixed_point_ternary :
+    isCnf (Expr.or [.lit "a", .lit "b", .lit "c"]) = true ∧
+    toCnf (Expr.or [.lit "a", .lit "b", .lit "c"]) = Expr.or [.or [.lit "a", .lit "b"], .lit "c"] := by
+  refine ⟨by decide, ?_⟩
+  simp [toCnf, toNnf, toNnfL, cnfN, cnfNL, distributeCnf, distrCnfRight, binaryOr]
+
 /-- the Rust `to_cnf` re-normalises every child of the NNF before recursing; that is the identity,
     so the structural `cnfN` of the model is the function the code computes -/
 theorem renormalising_children_is_identity (e : Expr α) : toNnf (toNnf e) = toNnf e := toNnf_toNnf e
